@@ -285,6 +285,48 @@ func genC15(r *Run) {
 		}
 		r.Extra["interfaces_with_hardware_address"] = seen
 	}
+	// a caller's WithReply(other) after the builder's own defaults: the packet is correlated with `other` - its
+	// transaction id, hardware address, flags, and the opcode OPPOSITE to other's - whatever the defaults had set
+	for k := 0; k < 40; k++ {
+		req, _ := dhcpv4.New(dhcpv4.WithTransactionID(dhcpv4.TransactionID{1, 2, 3, byte(k)}), dhcpv4.WithHwAddr(net.HardwareAddr{2, 0, 0, 0, 0, 1}))
+		other, _ := dhcpv4.New(dhcpv4.WithTransactionID(dhcpv4.TransactionID{9, 9, 9, byte(k)}), dhcpv4.WithHwAddr(net.HardwareAddr{2, 0, 0, 0, 0, 2}), dhcpv4.WithBroadcast(k%2 == 0))
+		if k%4 < 2 {
+			req.OpCode = dhcpv4.OpcodeBootRequest
+		} else {
+			req.OpCode = dhcpv4.OpcodeBootReply
+		}
+		if k%2 == 0 {
+			other.OpCode = dhcpv4.OpcodeBootReply
+		} else {
+			other.OpCode = dhcpv4.OpcodeBootRequest
+		}
+		var p *dhcpv4.DHCPv4
+		var err error
+		switch k % 5 {
+		case 0:
+			p, err = dhcpv4.NewReplyFromRequest(req, dhcpv4.WithReply(other))
+		case 1:
+			p, err = dhcpv4.NewRequestFromOffer(req, dhcpv4.WithReply(other))
+		case 2:
+			p, err = dhcpv4.NewDiscovery(req.ClientHWAddr, dhcpv4.WithReply(other))
+		case 3:
+			p, err = dhcpv4.New(dhcpv4.WithReply(req), dhcpv4.WithReply(other))
+		default:
+			p, err = dhcpv4.NewInform(req.ClientHWAddr, net.IP{10, 0, 0, 9}, dhcpv4.WithReply(other))
+		}
+		if err != nil {
+			continue
+		}
+		wantOp := dhcpv4.OpcodeBootReply
+		if other.OpCode != dhcpv4.OpcodeBootRequest {
+			wantOp = dhcpv4.OpcodeBootRequest
+		}
+		if p.OpCode != wantOp || p.TransactionID != other.TransactionID || !bytes.Equal(p.ClientHWAddr, other.ClientHWAddr) || p.Flags != other.Flags {
+			r.Fail("c15-user-withreply-prevails", fmt.Sprintf("builder %d, request opcode %v, WithReply(packet with opcode %v)", k%5, req.OpCode, other.OpCode),
+				fmt.Sprintf("got opcode %v xid %x chaddr %s flags %04x, the caller's WithReply asks for opcode %v xid %x chaddr %s flags %04x", p.OpCode, p.TransactionID, p.ClientHWAddr, p.Flags, wantOp, other.TransactionID, other.ClientHWAddr, other.Flags))
+			break
+		}
+	}
 	n := r.N(2500, 150000)
 	for i := 0; i < n; i++ {
 		opts := map[byte][]byte{}
